@@ -89,13 +89,15 @@ Definition run_c07 (x : sx) : sx :=
 Definition kpath (k : key) : key :=
   match k with a :: b :: _ => [a; 47; b; 47] ++ k | _ => k end.
 
-Definition dec_fault (x : sx) : option N := if N.eqb (get_N x) 0 then None else Some (get_N x - 1).
+(* the file-size limit m only bites when the entry is longer than m *)
+Definition dec_fault (n : N) (x : sx) : option N :=
+  if N.eqb (get_N x) 0 then None else if N.ltb (get_N x - 1) n then Some (get_N x - 1) else None.
 
 Definition dec_dop (x : sx) : option dop :=
   match x with
   | SL [t; a] => if is_sym "get" t then Some (DGet (kpath (get_B a))) else None
   | SL [t; a; b; c] =>
-      if is_sym "put" t then Some (DPut (kpath (get_B a)) (get_N b) (dec_fault c)) else None
+      if is_sym "put" t then Some (DPut (kpath (get_B a)) (get_N b) (dec_fault (get_N b) c)) else None
   | _ => None
   end.
 
